@@ -163,7 +163,7 @@ def rule_R(ck, lib):
         d = rs.classify(x)
         if d.get("has_parse") and d.get("parse_err") and d.get("incomplete"):
             n += 1
-            ck.judge(not d["handle_calls"] and x.kind == "return" and x.value == rs.input_arg, "C08-R", "run:incomplete-silent",
+            ck.judge(not d["handle_calls"] and x.kind in ("return", "err") and x.value == rs.input_arg, "C08-R", "run:incomplete-silent",
                      "Incomplete: nothing reported, input kept for the caller", "run does not answer Incomplete silently with the unchanged input")
     ck.floor("C08-R", "Incomplete paths of run", n, 1)
     for st in rs.ps.loops.get(rs.loop_site, {"entry": []})["entry"]:
